@@ -4,7 +4,7 @@ use std::borrow::Cow;
 
 use winnow::{
     ascii::{space0, space1},
-    combinator::{cond, cut_err, opt, preceded, repeat, terminated, trace},
+    combinator::{alt, cond, cut_err, opt, preceded, repeat, terminated, trace},
     error::StrContext,
     stream::{AsChar, Stream, StreamIsPartial},
     token::{one_of, take_while},
@@ -39,8 +39,13 @@ where
             opt(preceded(one_of('='), primitive::date)),
         )
         .parse_next(input)?;
-        let is_shortest = has_peek(character::line_ending_or_eof).parse_next(input)?;
-        // Date (and effective date) should be followed by space, unless followed by line_ending.
+        // Metadata can directly follow the date without any spaces.
+        let is_shortest = has_peek(alt((
+            character::line_ending_or_eof,
+            one_of(';').void(),
+        )))
+        .parse_next(input)?;
+        // Date (and effective date) should be followed by space, unless followed by line_ending or metadata.
         cond(!is_shortest, space1).void().parse_next(input)?;
         let clear_state = metadata::clear_state(input)?;
         let code = opt(terminated(character::paren_str, space0)).parse_next(input)?;
